@@ -214,7 +214,7 @@ m = {
  },
  "engines": [
   {"name": "E1 explicit-state BFS over real handlers", "path": "mc/explore", "serves_properties": ["C02","C03","C04","C05","C06","C07","C08","C09","C10"], "kind_free_text": "explicit-state model checking where every transition is an execution of the real code on a fresh instance (replay of the shortest path + 1 op); state key = hook dump + observer ghost"},
-  {"name": "E2 cooperative scheduler + preemption-bounded DFS", "path": "mc/sched + mc/verifsched + mc/cmd/instr", "serves_properties": ["C01","C02","C03","C04","C05","C06","C08","C11","C13","C16","C20"], "kind_free_text": "stateless model checking of the implementation: sync replaced by a shim through go build -overlay, Yield() injected before every statement, all schedules up to a preemption bound"},
+  {"name": "E2 cooperative scheduler + preemption-bounded DFS", "path": "mc/sched + mc/verifsched + mc/cmd/instr", "serves_properties": ["C01","C02","C03","C04","C05","C06","C08","C11","C12","C13","C16","C20"], "kind_free_text": "stateless model checking of the implementation: sync replaced by a shim through go build -overlay, Yield() injected before every statement, all schedules up to a preemption bound"},
   {"name": "E3 bounded-exhaustive enumerator vs reference model", "path": "mc/checks/*", "serves_properties": ["C01","C10","C11","C12","C13","C14","C15","C17","C18","C19","C20"], "kind_free_text": "complete cross product of small per-dimension alphabets executed on the real code and compared with a reference written from the property text"},
  ],
  "checks": [],
